@@ -117,3 +117,86 @@ Proof.
     eapply Forall_impl; [|exact Hf]. intros [u p'] (_ & Hp & _). cbn [snd] in *. split; [exact Hp|].
     unfold err_kind. rewrite Hp. reflexivity.
 Qed.
+
+(* ---------------------------------------------------------------------------------------------- *)
+(* What exactly happens after a missing colon.  The call records the error at the offending byte and leaves
+   the parser in key position (stack unchanged), needComma false, cursor AT the offending byte: the key that
+   was read is dropped.  The following call is therefore an ordinary call in key position on the rest. *)
+Definition after_missing_colon (p1 : parser) (off : Z) (s2 st : list Z) : Prop :=
+  exists a' tok', cur3 (pz p1) a' tok' s2 /\ len a' + len tok' = off /\
+    pst p1 = S_ObjectKey :: st /\ pneed p1 = false /\ perr p1 = Some off.
+
+Theorem missing_colon_exact_proof : forall p a tok lead k w2 s2 st,
+  cur3 (pz p) a tok (lead ++ k ++ w2 ++ s2) -> lead_ok p lead false -> pst p = S_ObjectKey :: st ->
+  jstring k -> ws w2 -> is_ws (hd0 s2) = false -> hd0 s2 <> 58 ->
+  exists p1, next p = Some ((G_Error, None), p1) /\ prd p1 = prd p /\
+             after_missing_colon p1 (len a + len tok + len lead + len k + len w2) s2 st.
+Proof.
+  intros p a tok lead k w2 s2 st Hc Hl Hst Hk Hw Hws H58.
+  destruct (rejects_missing_colon_strong p a tok lead k w2 s2 st Hc Hl Hst Hk Hw Hws H58)
+    as (p1 & a' & tok' & E & Hp & Hst1 & Hprd & Hc1 & Hlen & Hnd).
+  exists p1. split; [exact E|]. split; [exact Hprd|]. exists a', tok'. rewrite Hst1. auto.
+Qed.
+
+(* (1) any offending byte other than the quote, } and , (digits, brackets, NUL, the end of input ...):
+       the error is reported again at the same offset by every further call *)
+Theorem missing_colon_then_stuck_proof : forall n p1 off s2 st,
+  after_missing_colon p1 off s2 st -> is_ws (hd0 s2) = false ->
+  hd0 s2 <> 34 -> hd0 s2 <> 44 -> hd0 s2 <> 125 ->
+  exists tr, trace n p1 = Some tr /\ length tr = n /\
+    Forall (fun up => fst up = (G_Error, None) /\ perr (snd up) = Some off /\ pst (snd up) = pst p1) tr.
+Proof.
+  intros n p1 off s2 st (a' & tok' & Hc & Hlen & Hst & Hnd & Hp) Hws H34 H44 H125.
+  rewrite <- Hlen. apply (parse_error_stuck_proof n p1 a' tok' s2 Hc).
+  eapply stuck_key; eauto.
+Qed.
+
+Lemma runs_one_inv p u p' : runs p [u] p' ->
+  exists lo, next p = Some ((sg u, Some (lo, sbytes u)), p') /\ state p' = Some (sstate u).
+Proof.
+  intros H. inversion H as [|p0 g lo b p1 s us p2 Hn Hg Hs Hr]; subst.
+  inversion Hr; subst. exists lo. cbn [sg sbytes sstate]. auto.
+Qed.
+
+(* (2) the offending byte is } : the next call closes the object (the dangling key is dropped), Err() keeps
+       the error *)
+Theorem missing_colon_then_close_proof : forall p1 off r st,
+  after_missing_colon p1 off (125 :: r) st -> st <> [] ->
+  exists lo p2, next p1 = Some ((G_EndObject, Some (lo, [125])), p2) /\ pst p2 = valfix st /\ perr p2 = Some off.
+Proof.
+  intros p1 off r st (a' & tok' & Hc & Hlen & Hst & Hnd & Hp) Hne.
+  destruct (close_run p1 a' tok' [] 125 r S_ObjectKey G_EndObject st Hc ws_nil Hst Hne)
+    as (p2 & a2 & s' & Hrun & _ & Hst2 & _ & (He & _)); [right; auto|].
+  destruct (runs_one_inv _ _ _ Hrun) as (lo & Hn & _). cbn [sg sbytes] in Hn.
+  exists lo, p2. split; [exact Hn|]. split; [exact Hst2|]. congruence.
+Qed.
+
+(* (3) the offending byte starts another key followed by its colon: that key is returned as a unit *)
+Theorem missing_colon_then_key_proof : forall p1 off k2 w r st,
+  after_missing_colon p1 off (k2 ++ w ++ 58 :: r) st -> jstring k2 -> ws w ->
+  exists lo p2, next p1 = Some ((G_String, Some (lo, k2)), p2) /\ pst p2 = S_ObjectValue :: st /\ perr p2 = Some off.
+Proof.
+  intros p1 off k2 w r st (a' & tok' & Hc & Hlen & Hst & Hnd & Hp) Hk Hw.
+  destruct (key_run p1 a' tok' [] k2 w r st Hc (lead_plain_false p1 [] ws_nil Hnd) Hk Hw Hst)
+    as (p2 & a2 & Hrun & _ & Hst2 & _ & (He & _)).
+  destruct (runs_one_inv _ _ _ Hrun) as (lo & Hn & _). cbn [sg sbytes] in Hn.
+  exists lo, p2. split; [exact Hn|]. split; [exact Hst2|]. congruence.
+Qed.
+
+(* non-vacuity: {"a" "b":1} after the unit { *)
+Example ex_missing_colon_exact :
+  let p := mkP (mkLx [123; 34; 97; 34; 32; 34; 98; 34; 58; 49; 125; 0] 1 1) [1; 0] None false 0 in
+  exists p1, next p = Some ((G_Error, None), p1) /\ after_missing_colon p1 5 [34; 98; 34; 58; 49; 125] [0].
+Proof.
+  cbn zeta.
+  destruct (missing_colon_exact_proof (mkP (mkLx [123; 34; 97; 34; 32; 34; 98; 34; 58; 49; 125; 0] 1 1) [1; 0] None false 0)
+              [123] [] [] [34; 97; 34] [32] [34; 98; 34; 58; 49; 125] [0]) as (p1 & Hn & _ & Ha).
+  - repeat split.
+  - apply lead_plain_false; [constructor|reflexivity].
+  - reflexivity.
+  - exact (js_intro [97] (jc_plain 97 [] ltac:(lia) ltac:(lia) ltac:(lia) jc_nil)).
+  - repeat constructor.
+  - reflexivity.
+  - cbn. lia.
+  - exists p1. split; [exact Hn|exact Ha].
+Qed.
